@@ -59,7 +59,10 @@ def run(an: Analysis, rep):
         "emitted units ((arg >> 8i) & 0xFF, high unit first, EXTENDED_ARG prefixes) reassemble to the value under the decoder's "
         "shift; no Optional line reaches arithmetic without a None test; the relaxation loop recomputes block offsets before jump "
         "operands on every iteration, raises its flag exactly when a jump's size changes, and all three size computations agree. "
-        "Termination / fixed-point correctness of the relaxation and the synthesised line table are not decided."
+        "R03.E folds the whole layout function over witness block lists (equal relative jumps at different places, a target block that starts with "
+        "a prefixed instruction, jumps that grow, recorded widths, cell / free variables, repeated entries) and reads the bytes back as CPython's "
+        "disassembler does; R03.T folds the table class over call sequences; R03.Y folds the assembly loop. Termination of the relaxation in "
+        "general and block lists outside the witness set are not decided."
     )
     rep.rule("R03.1", "position overrides with gaps are rejected before the table is compacted", 1)
     rep.rule("R03.2", "collisions are compared through the table's key function", 1)
@@ -1145,7 +1148,7 @@ def r03t(an, rep, rule="R03.T"):
 
 
 # ----------------------------------------------------------------------------- R03.E
-def package_evaluator(an, module, V, max_iter=4096):
+def package_evaluator(an, module, V, max_iter=4096, stubs=None):
     """An ObjEval over the whole package: module-level functions of any package module by name (ambiguous names are not resolved), every data
     class constructible, `dis` / `opcode` / `sys` / `ctypes` as the reference tables of interpreter V."""
     from sa.feval import ObjEval
@@ -1167,14 +1170,18 @@ def package_evaluator(an, module, V, max_iter=4096):
             **{k: list(R[k]) for k in ("hasjabs", "hasjrel", "hasname", "haslocal", "hasfree", "hasconst", "hascompare")}}
     import collections as _c
     import math as _m
-    ev = ObjEval(lambda name: None if name in amb else fns.get(name),
+    stubs = stubs or {}
+    ev = ObjEval(lambda name: None if (name in amb or name in stubs) else fns.get(name),
                  extra={"dis": dis_, "opcode": dis_, "EXTENDED_ARG": R["EXTENDED_ARG"], "HAVE_ARGUMENT": R["HAVE_ARGUMENT"], "opmap": om, "opname": opname,
                         "sys": {"version_info": tuple(V) + (0, "final", 0)}, "ctypes": {"sizeof": lambda x: {"c_int": 4}[x], "c_int": lambda *a: "c_int"},
                         "Counter": _c.Counter, "isnan": _m.isnan, "copysign": _m.copysign, "NotImplementedError": NotImplementedError, "ValueError": ValueError,
                         "AssertionError": AssertionError, "OrderedDict": dict, "bisect_left": __import__("bisect").bisect_left, "bisect_right": __import__("bisect").bisect_right,
                         "bisect": {"bisect_left": __import__("bisect").bisect_left, "bisect_right": __import__("bisect").bisect_right, "bisect": __import__("bisect").bisect},
-                        "id": id,
+                        "collections": {"defaultdict": _c.defaultdict, "Counter": _c.Counter, "OrderedDict": dict}, "defaultdict": _c.defaultdict,
+                        "id": id, "accumulate": lambda xs, *a, **k: tuple(__import__("itertools").accumulate(xs, *a, **k)),
+                        "chain": __import__("itertools").chain, "itertools": {"accumulate": lambda xs, *a, **k: tuple(__import__("itertools").accumulate(xs, *a, **k)), "chain": __import__("itertools").chain},
                         "_ParameterKind": {"POSITIONAL_ONLY": 0, "POSITIONAL_OR_KEYWORD": 1, "VAR_POSITIONAL": 2, "KEYWORD_ONLY": 3, "VAR_KEYWORD": 4}})
+    ev.lib.update(stubs)
     ev.module_assigns = {}
     for mod in an.prog.modules.values():
         if mod.name.startswith("code_data") and not mod.is_test:
@@ -1238,10 +1245,17 @@ def r03e(an, rep, rule="R03.E"):
          [[("LOAD_CLOSURE", C("c")), ("LOAD_DEREF", F("f1")), ("LOAD_DEREF", F("f0")), ("LOAD_DEREF", C("c")), ("RETURN_VALUE", None)]], ("f0", "f1")),
         ("names and constants met twice, 1 / True / 1.0 kept apart",
          [[("LOAD_NAME", N("x")), ("LOAD_CONST", K(1)), ("LOAD_CONST", K(True)), ("LOAD_NAME", N("y")), ("LOAD_CONST", K(1.0)), ("LOAD_NAME", N("x")), ("LOAD_CONST", K(1)), ("RETURN_VALUE", None)]], ()),
+        ("a function without docstring whose first constant is a string, met in its second block",
+         [[("LOAD_GLOBAL", N("g")), ("POP_JUMP_IF_FALSE", J(1, False))], [("LOAD_CONST", K("s")), ("RETURN_VALUE", None)]], (), "nodoc"),
+        ("a function with a docstring that an instruction loads as well",
+         [[("LOAD_CONST", K("doc")), ("POP_TOP", None), ("LOAD_CONST", K(2)), ("RETURN_VALUE", None)]], (), "doc"),
+        ("a function without docstring whose first constant is not a string",
+         [[("LOAD_CONST", K(5)), ("POP_TOP", None), ("LOAD_CONST", K("s")), ("RETURN_VALUE", None)]], (), "nodoc"),
     ]
     for V in VERSIONS:
         bad = []
-        for wname, wb, freevars in W:
+        for wname, wb, freevars, *kind in W:
+            kind = kind[0] if kind else None
             ev, R = package_evaluator(an, g.module, V)
             mk = ev.lib
 
@@ -1263,7 +1277,8 @@ def r03e(an, rep, rule="R03.E"):
                 continue
             try:
                 blocks = tuple(tuple(mk["Instruction"](name=ins[0], arg=arg_obj(ins[1]), _n_args_override=(ins[2] if len(ins) > 2 else None), line_number=1) for ins in b) for b in wb)
-                res = ev.call_method(g.node, blocks, (), tuple(freevars), None)
+                btype = None if kind is None else mk["Function"](mk["Args"](), "doc" if kind == "doc" else None, None)
+                res = ev.call_method(g.node, blocks, (), tuple(freevars), btype)
             except BlockOutcome as o:
                 bad.append(f"{wname}: the layout stops at `{norm_src(o.node)[:60]}`")
                 continue
@@ -1312,6 +1327,12 @@ def r03e(an, rep, rule="R03.E"):
                     why = f"{ins[0]} {spec[1]} has operand {operand}"
                 if why:
                     break
+            if not why and kind == "nodoc" and consts and isinstance(consts[0], str):
+                why = f"co_consts is {consts}: CPython reads a str at index 0 as the docstring of a function, the data says it has none"
+            if not why and kind == "doc" and (not consts or consts[0] != "doc"):
+                why = f"co_consts is {consts}: the docstring 'doc' is not its first entry"
+            if not why and kind == "nodoc" and len(consts) != len({(type(c), c) for c in consts}):
+                why = f"co_consts is {consts}: an entry is listed twice"
             if why:
                 bad.append(f"{wname}: {why}")
         rep.add(rule, f"{g.qual}::layout of witness blocks [{vname(V)}]", not bad, loc(g.module, g.node),
